@@ -225,7 +225,9 @@ pub fn run(ctx: &crate::RunCtx) -> (Summary, Vec<Violation>) {
     let mut n_case = 0u64;
     let items: Vec<CorpusItem> = (0..ctx.count as usize).map(|i| corpus::build(ctx.seed, i)).collect();
     for item in &items {
-        corpus::kinds(item, &mut sum.probes);
+        if ctx.child == 0 {
+            corpus::kinds(item, &mut sum.probes);
+        }
         let Some(base) = baseline(item) else {
             *sum.probes.entry("baseline_rejected".into()).or_default() += 1;
             if std::env::var("VERIF_DEBUG").is_ok() {
